@@ -15,6 +15,7 @@ RULE += ' Every third random range also builds a BacktestTradingSession (daily, 
 RULE += " Session clocks are built with UTC spelled as pytz.UTC / datetime.timezone.utc / 'UTC' in turn for start, end and burn-in."
 RULE += ' For ranges checked with re-use, copy.copy and copy.deepcopy of the engine must emit the same events.'
 RULE += ' A fifth of the random ranges start between 1950 and 1969.'
+RULE += ' Engines checked with re-use get their pre/post-market flags switched after the first pass; the next pass follows the new flags.'
 ASSUMPTIONS = ['UTC timestamps; end time-of-day not before the start\'s (the quantifier)']
 EXHAUSTIVE = {'thorough': 'all (start date in 2019-12-01..2024-03-31) x (start 00:00|14:30) x (length 0..45 d) x 4 flag combinations'}
 
